@@ -835,3 +835,170 @@ Example NoTakeSpawn_idle : NoTakeSpawn (fun _ _ _ => mkScript false 0 0 []).
 Proof. intros h le n _ _. reflexivity. Qed.
 Example quiet_somewhere : Quiet (world0 100 0) /\ elen (world0 100 0) < U32MAX /\ no_exhaustion (fun _ _ _ => mkScript false 0 0 []) [] (world0 100 0).
 Proof. split; [apply Quiet_world0|]. split; [reflexivity|exact I]. Qed.
+
+(* ---------- the cursor invariant inside a propagation ---------- *)
+(* ReserveInv w (ReserveW.v): the cursor is where NextKeyIter stands after predicting, on the current entity map,
+   as many ids as are currently reserved - so that the ids handed out since the last materialisation are exactly
+   the ids the next spawn_all creates (ReserveW.reserved_ids_are_created).  It is an invariant of every step of the
+   stack machine, for EVERY handler behaviour and from any state (no registry invariant is needed). *)
+Lemma RI_ro w' w : ro w' = ro w -> ReserveInv w -> ReserveInv w'.
+Proof. intros H. apply eo_ReserveInv. now apply ro_eo. Qed.
+Lemma RI_reserve w : ReserveInv w -> ReserveInv (res_world (reserve w)).
+Proof.
+  intros [ks H]. pose proof (reserve_ReserveInv w ks H) as X. destruct (reserve w) as [k w'|f w']; cbn [res_world]; [exists (ks ++ [k]); exact X|subst; exists ks; exact H].
+Qed.
+
+Lemma run_actions_RI acts : forall ps t fresh sent w, ReserveInv w -> ReserveInv (snd (fst (run_actions acts ps t fresh sent w))).
+Proof.
+  induction acts as [|a rest IH]; intros ps t fresh sent w HR; cbn [run_actions]; [exact HR|].
+  pose proof (r_use_fuel ro ltac:(fr) w) as Hf. destruct (use_fuel w) as [ok w0]. cbn [snd] in Hf.
+  destruct ok; cbn [negb]; [|now apply IH].
+  assert (HR0 : ReserveInv w0) by (eapply RI_ro; eauto).
+  destruct a; repeat (break_match; cbn [fst snd]);
+    repeat match goal with
+    | H : fresh_serial ?x = (_, ?y) |- _ => let E := fresh "E" in pose proof (r_fresh_serial ro ltac:(fr) x) as E; rewrite H in E; cbn [snd] in E; clear H
+    | H : new_cval ?x ?k = (_, ?y) |- _ => let E := fresh "E" in pose proof (r_new_cval ro ltac:(fr) x k) as E; rewrite H in E; cbn [snd] in E; clear H
+    | H : reserve ?x = _ |- _ => let E := fresh "E" in pose proof (RI_reserve x HR0) as E; rewrite H in E; cbn [res_world] in E; clear H
+    end;
+    try (apply IH);
+    repeat first [ assumption
+                 | apply (RI_ro _ _ (r_ev_drop ro ltac:(fr) _ _ _ _))
+                 | apply (RI_ro _ _ (r_push_known ro ltac:(fr) _ _))
+                 | match goal with E : ro ?x = ro ?y |- ReserveInv ?x => apply (RI_ro x y E) end ].
+Qed.
+
+Section RIStep.
+Variable beh : hinfo -> logent -> N -> script.
+
+Lemma run_handler_RI w h it tag loc : ReserveInv w -> ReserveInv (snd (run_handler beh w h it tag loc)).
+Proof.
+  intros HR. unfold run_handler. destruct (param_views w (h_params h) loc) as [f|[ritems views]]; [exact HR|].
+  match goal with |- context [run_actions ?a ?b ?c ?d ?e ?x0] =>
+    assert (HR2 : ReserveInv x0) by (eapply RI_ro; [|exact HR]; rewrite (r_apply_writes ro ltac:(fr)); reflexivity);
+    pose proof (run_actions_RI a b c d e x0 HR2) as Hra; destruct (run_actions a b c d e x0) as [[sent w3] fl] end.
+  cbn [fst snd] in Hra. destruct fl; [exact Hra|]. destruct (_ =? _); exact Hra.
+Qed.
+
+Lemma run_handlers_RI hl : forall w it tag loc sent, ReserveInv w -> ReserveInv (fst (fst (fst (fst (run_handlers beh hl w it tag loc sent))))).
+Proof.
+  induction hl as [|hk rest IH]; intros w it tag loc sent HR; cbn [run_handlers]; [exact HR|].
+  destruct (sm_get hk (w_hs w)) as [h|]; [|exact HR].
+  pose proof (run_handler_RI w h it tag loc HR) as H1. destruct (run_handler beh w h it tag loc) as [r w1]. cbn [snd] in H1.
+  assert (Hd : forall t0 tg ev0, ReserveInv (ev_drop w1 t0 tg ev0)) by (intros; eapply RI_ro; [apply (r_ev_drop ro); fr|exact H1]).
+  destruct (hr_fail r); [destruct (hr_taken r); cbn [fst]; [apply Hd|exact H1]|]. destruct (hr_taken r); cbn [fst]; [apply Hd|]. now apply IH.
+Qed.
+
+Lemma deliver_one_elen it w : elen w <= elen (snd (fst (deliver_one beh it w))).
+Proof.
+  unfold deliver_one.
+  assert (Hfin : forall tag kind hl loc,
+     elen w <= elen (snd (fst (let '(w1, ev, sent, taken, fl) := run_handlers beh hl w it tag loc [] in
+              match fl with
+              | Some f => (sent, (if taken then w1 else ev_drop w1 (qi_targeted it) tag ev), Some f)
+              | None => if taken then (sent, w1, None) else
+                  match kind with
+                  | KNormal => (sent, ev_drop w1 (qi_targeted it) tag ev, None)
+                  | _ => let '(w3, f) := fail_of (builtin_effect kind ev loc w1) in (sent, w3, f)
+                  end
+              end)))).
+  { intros tag kind hl loc. pose proof (r_run_handlers w_ents ltac:(fr) ltac:(fr) ltac:(fr) ltac:(fr) beh hl w it tag loc []) as He.
+    destruct (run_handlers beh hl w it tag loc []) as [[[[w1 ev] sent] taken] fl]. cbn [fst snd] in He.
+    assert (E1 : elen w1 = elen w) by (unfold elen; now rewrite He).
+    assert (Ed : forall t0 tg ev0, elen (ev_drop w1 t0 tg ev0) = elen w) by (intros; rewrite (eo_elen _ _ (eo_ev_drop _ _ _ _)); exact E1).
+    destruct fl; [destruct taken; cbn [fst snd]; rewrite ?Ed; lia|]. destruct taken; [cbn [fst snd]; lia|].
+    destruct kind; try (cbn [fst snd]; rewrite ?Ed; lia);
+      match goal with |- context [builtin_effect ?k ev loc w1] => pose proof (proj1 (builtin_effect_Q k ev loc w1)) as HB; cbn zeta in HB; destruct (builtin_effect k ev loc w1); cbn [fail_of fst snd res_world] in *; lia end. }
+  destruct (qi_targeted it).
+  - destruct (get_by_index (w_tev w) (qi_idx it)) as [[k info]|]; [|cbn [fst snd]; lia].
+    destruct (sm_get (qi_target it) (w_ents w)) as [loc|]; [|cbn [fst snd]; rewrite (eo_elen _ _ (eo_ev_drop _ _ _ _)); lia].
+    destruct (slab_get (w_archs w) (fst loc)); [apply Hfin|cbn [fst snd]; lia].
+  - destruct (get_by_index (w_gev w) (qi_idx it)) as [[k info]|]; [|cbn [fst snd]; lia].
+    destruct (nget (w_glists w) (qi_idx it)); [apply Hfin|cbn [fst snd]; lia].
+Qed.
+
+Lemma builtin_effect_RI kind ev loc w1 : ReserveInv w1 -> elen (res_world (builtin_effect kind ev loc w1)) < U32MAX ->
+  match builtin_effect kind ev loc w1 with ROk _ w3 => ReserveInv w3 | RFail _ _ => True end.
+Proof.
+  intros HR Hl. pose proof (builtin_effect_Q kind ev loc w1) as HB. cbn zeta in HB. destruct HB as [_ HB]. specialize (HB Hl).
+  destruct (builtin_effect kind ev loc w1) as [[] w3|f w3]; [|exact I].
+  destruct kind; try (eapply eo_ReserveInv; [exact HB|exact HR]); exists []; now apply Quiet_ReserveInv.
+Qed.
+
+Lemma deliver_one_RI it w : ReserveInv w -> elen (snd (fst (deliver_one beh it w))) < U32MAX -> snd (deliver_one beh it w) = None ->
+  ReserveInv (snd (fst (deliver_one beh it w))).
+Proof.
+  intros HR. unfold deliver_one.
+  assert (Hfin : forall tag kind hl loc,
+     let r := (let '(w1, ev, sent, taken, fl) := run_handlers beh hl w it tag loc [] in
+              match fl with
+              | Some f => (sent, (if taken then w1 else ev_drop w1 (qi_targeted it) tag ev), Some f)
+              | None => if taken then (sent, w1, None) else
+                  match kind with
+                  | KNormal => (sent, ev_drop w1 (qi_targeted it) tag ev, None)
+                  | _ => let '(w3, f) := fail_of (builtin_effect kind ev loc w1) in (sent, w3, f)
+                  end
+              end) in
+     elen (snd (fst r)) < U32MAX -> snd r = None -> ReserveInv (snd (fst r))).
+  { intros tag kind hl loc. pose proof (run_handlers_RI hl w it tag loc [] HR) as H1.
+    destruct (run_handlers beh hl w it tag loc []) as [[[[w1 ev] sent] taken] fl]. cbn [fst snd] in H1. cbn zeta.
+    assert (Hd : forall t0 tg ev0, ReserveInv (ev_drop w1 t0 tg ev0)) by (intros; eapply RI_ro; [apply (r_ev_drop ro); fr|exact H1]).
+    destruct fl; [cbn [fst snd]; discriminate|]. destruct taken; [cbn [fst snd]; auto|].
+    destruct kind; try (cbn [fst snd]; intros _ _; apply Hd);
+      match goal with |- context [builtin_effect ?k ev loc w1] => pose proof (builtin_effect_RI k ev loc w1 H1) as HB; destruct (builtin_effect k ev loc w1) as [[] w3|f w3]; cbn [fail_of fst snd res_world] in *; [intros Hl _; now apply HB|discriminate] end. }
+  destruct (qi_targeted it).
+  - destruct (get_by_index (w_tev w) (qi_idx it)) as [[k info]|]; [|cbn [fst snd]; discriminate].
+    destruct (sm_get (qi_target it) (w_ents w)) as [loc|]; [|cbn [fst snd]; intros _ _; eapply RI_ro; [apply (r_ev_drop ro); fr|exact HR]].
+    destruct (slab_get (w_archs w) (fst loc)); [apply Hfin|cbn [fst snd]; discriminate].
+  - destruct (get_by_index (w_gev w) (qi_idx it)) as [[k info]|]; [|cbn [fst snd]; discriminate].
+    destruct (nget (w_glists w) (qi_idx it)); [apply Hfin|cbn [fst snd]; discriminate].
+Qed.
+
+Lemma flush_loop_elen : forall n q (st : wst) acc tr st' oc,
+  Loop.flush wst qitem (run_w beh) unwind_w n q st acc = Some (tr, st', oc) -> elen (fst st) <= elen (fst st').
+Proof.
+  induction n as [|n IH]; intros q st acc tr st' oc H; [discriminate|].
+  cbn [Loop.flush] in H. destruct (rev q) as [|e r] eqn:Er.
+  - unfold step in H. rewrite Er in H. inversion H; subst. lia.
+  - assert (Hq : q = rev r ++ [e]) by (rewrite <- (rev_involutive q), Er; reflexivity).
+    rewrite Hq, step_snoc in H. unfold run_w in H. pose proof (deliver_one_elen e (fst st)) as El.
+    destruct (deliver_one beh e (fst st)) as [[sent w2] fl2]. cbn [fst snd] in *. destruct fl2 as [f|].
+    + inversion H; subst st'. unfold unwind_w. cbn [fst snd]. destruct f as [k|s]; cbn [fst]; [|lia].
+      destruct (spawn_all_Quiet (unwind_queue (rev r ++ sent) w2)) as [A _]. rewrite (eo_elen _ _ (eo_unwind_queue _ _)) in A.
+      destruct (spawn_all (unwind_queue (rev r ++ sent) w2)); cbn [res_world] in A; lia.
+    + apply IH in H. cbn [fst] in H. lia.
+Qed.
+
+(* the whole stack machine: the cursor invariant holds at every step and at the end (an aborted propagation ends
+   with the unwinding materialisation, after which nothing is reserved); FUB failures, which no reachable world
+   produces (Sender.no_call_fails_unchecked), are excluded *)
+Theorem flush_loop_RI : forall n q (st : wst) acc tr st' oc,
+  Loop.flush wst qitem (run_w beh) unwind_w n q st acc = Some (tr, st', oc) ->
+  ReserveInv (fst st) -> (oc = Aborted -> ~ ubf (snd st')) -> elen (fst st') < U32MAX -> ReserveInv (fst st').
+Proof.
+  induction n as [|n IH]; intros q st acc tr st' oc H HR Hnu Hl; [discriminate|].
+  cbn [Loop.flush] in H. destruct (rev q) as [|e r] eqn:Er.
+  - unfold step in H. rewrite Er in H. inversion H; subst. exact HR.
+  - assert (Hq : q = rev r ++ [e]) by (rewrite <- (rev_involutive q), Er; reflexivity).
+    rewrite Hq, step_snoc in H. unfold run_w in H.
+    pose proof (deliver_one_RI e (fst st) HR) as HD.
+    destruct (deliver_one beh e (fst st)) as [[sent w2] fl2]. cbn [fst snd] in *.
+    destruct fl2 as [f|].
+    + inversion H; subst st'. clear H. unfold unwind_w in *. cbn [fst snd] in *. destruct f as [k|s]; [|exfalso; apply Hnu; [congruence|exact I]].
+      cbn [fst] in *. destruct (spawn_all_Quiet (unwind_queue (rev r ++ sent) w2)) as [_ B].
+      assert (Ew : res_world (spawn_all (unwind_queue (rev r ++ sent) w2)) = match spawn_all (unwind_queue (rev r ++ sent) w2) with ROk _ w3 => w3 | RFail _ w3 => w3 end) by (destruct (spawn_all _); reflexivity).
+      rewrite <- Ew in *. exists []. apply Quiet_ReserveInv. exact (B Hl).
+    + pose proof (flush_loop_elen _ _ _ _ _ _ _ H) as El2. cbn [fst] in El2.
+      apply (IH _ _ _ _ _ _ H); [|exact Hnu|exact Hl]. cbn [fst]. apply HD; [lia|reflexivity].
+Qed.
+
+Theorem flush_RI q w : ReserveInv w -> ~ ubf (res_fail (flush beh q w)) -> elen (res_world (flush beh q w)) < U32MAX ->
+  res_fail (flush beh q w) <> Some (FPanic 8) -> ReserveInv (res_world (flush beh q w)).
+Proof.
+  intros HR. unfold flush, flush_loop.
+  destruct (Loop.flush wst qitem (run_w beh) unwind_w FUEL q (w, None) []) as [[[tr [w1 fl]] oc]|] eqn:E; [|cbn [res_fail]; intros _ _ X; now contradiction X].
+  pose proof (flush_loop_RI _ _ _ _ _ _ _ E HR) as HF. cbn [fst snd] in HF.
+  destruct oc.
+  - cbn [res_world res_fail]. intros _ Hl _. apply (RI_ro _ w1); [reflexivity|]. apply HF; [discriminate|exact Hl].
+  - pose proof (aborted_has_failure beh _ _ _ _ _ _ E) as Hab. cbn [snd] in Hab. destruct fl as [f|]; [|contradiction]. cbn [res_world res_fail]. intros Hn Hl _. apply HF; [intros _; exact Hn|exact Hl].
+Qed.
+End RIStep.
